@@ -171,7 +171,8 @@ pub fn c04_schedule(seed: u64, index: u64, rep: &mut Report, free: bool) {
     let sq = ring.sq();
     let ring_fd = simk::k().only_ring_fd();
     let raw = fds::issue("world-fd");
-    let afd: &'static AsyncFd = Box::leak(Box::new(unsafe { AsyncFd::from_raw_fd(raw, sq.clone()) }));
+    let afd_ptr: *mut AsyncFd = Box::into_raw(Box::new(unsafe { AsyncFd::from_raw_fd(raw, sq.clone()) }));
+    let afd: &'static AsyncFd = unsafe { &*afd_ptr };
     let shared = Arc::new(Shared::default());
     let total_ops = nsub as u64 * ops_per;
     let mut threads: Vec<Box<dyn FnOnce() + Send>> = Vec::new();
@@ -318,7 +319,7 @@ pub fn c04_schedule(seed: u64, index: u64, rep: &mut Report, free: bool) {
     if aborted {
         std::mem::forget(sq);
     } else {
-        unsafe { drop(Box::from_raw(std::ptr::from_ref(afd).cast_mut())) };
+        unsafe { drop(Box::from_raw(afd_ptr)) };
         drop(sq);
     }
     simk::k().sync_fd_events();
@@ -671,7 +672,8 @@ pub fn c11_schedule(seed: u64, index: u64, rep: &mut Report, free: bool) {
     let ring_fd = simk::k().only_ring_fd();
     let shared = Arc::new(Shared::default());
     let raw = fds::issue("world-fd");
-    let afd: &'static AsyncFd = Box::leak(Box::new(unsafe { AsyncFd::from_raw_fd(raw, sq.clone()) }));
+    let afd_ptr: *mut AsyncFd = Box::into_raw(Box::new(unsafe { AsyncFd::from_raw_fd(raw, sq.clone()) }));
+    let afd: &'static AsyncFd = unsafe { &*afd_ptr };
     // Optionally fill the submission queue with submissions nobody entered yet,
     // so that the wake-up message has to wait for room.
     let mut parked: Vec<Box<dyn DynOp>> = Vec::new();
@@ -787,7 +789,7 @@ pub fn c11_schedule(seed: u64, index: u64, rep: &mut Report, free: bool) {
         }
     }
     alloc::a10(|| drop(parked));
-    unsafe { drop(Box::from_raw(std::ptr::from_ref(afd).cast_mut())) };
+    unsafe { drop(Box::from_raw(afd_ptr)) };
     drop(sq);
     simk::k().sync_fd_events();
     alloc::CONSUMER_PHASE_HOLDS.store(true, Ordering::SeqCst);
@@ -844,7 +846,8 @@ pub fn c06_drop_schedule(seed: u64, index: u64, rep: &mut Report, free: bool) {
     let mut ring = alloc::a10(|| Ring::config().with_submission_queue_size(*rng.pick(&[2u32, 4, 16])).build()).expect("ring");
     let sq = ring.sq();
     let raw = fds::issue("world-fd");
-    let afd: &'static AsyncFd = Box::leak(Box::new(unsafe { AsyncFd::from_raw_fd(raw, sq.clone()) }));
+    let afd_ptr: *mut AsyncFd = Box::into_raw(Box::new(unsafe { AsyncFd::from_raw_fd(raw, sq.clone()) }));
+    let afd: &'static AsyncFd = unsafe { &*afd_ptr };
     let shared = Arc::new(Shared::default());
     let workers_done = Arc::new(AtomicUsize::new(0));
     let mut threads: Vec<Box<dyn FnOnce() + Send>> = Vec::new();
@@ -925,7 +928,7 @@ pub fn c06_drop_schedule(seed: u64, index: u64, rep: &mut Report, free: bool) {
     };
     let aborted = sched::aborted();
     if !aborted {
-        unsafe { drop(Box::from_raw(std::ptr::from_ref(afd).cast_mut())) };
+        unsafe { drop(Box::from_raw(afd_ptr)) };
         alloc::a10(|| drop(sq));
     } else {
         std::mem::forget(sq);
